@@ -1634,66 +1634,43 @@ theorem overriding_duplicate_counterexample :
     ∧ overridingSubclasses exBases [1, 2, 3, 4] (fun c _ => c == 1 || c == 4) (fun _ => true) 1 0 = [4] := by
   decide
 
-/-! ### lookups made while the modules are visited (`_mro` still `None`)
+/-! ### lookups made while the modules are visited (`_mro` still `None`) -/
 
-Full statement (false of the code, `findEarly_diamond_counterexample`): for every accepted class
-`findEarly bases ext owns c name = find bases ext owns c name`. -/
+theorem filter_true_eq {α : Type} : ∀ l : List α, l.filter (fun _ => true) = l
+  | [] => rfl
+  | a :: l => by simp
 
-/-- every class has at most one base -/
-def SingleInheritance (bases : Nat → List Nat) : Prop := ∀ d, (bases d).length ≤ 1
+/-- **early_eq_mro**: in a hierarchy whose bases are all resolved classes, the order `Class.mro()`
+has while the modules are visited is the order it has after post-processing — for accepted classes
+(the C3 linearisation) and for rejected ones (the `allbases` fallback) alike, with or without the
+class itself.  No hypothesis on the shape of the hierarchy (since commit 7c3f474; before, only under
+single inheritance). -/
+theorem early_eq_mro (bases : Nat → List Nat) (c : Nat) (is_ : Bool) :
+    classMroEarly bases (fun _ => false) c is_ = classMro bases (fun _ => false) c false is_ := by
+  have hb : (fun k => (bases k).filter fun b => !(fun _ => false) b) = bases := by
+    funext k; simp [filter_true_eq]
+  simp only [classMroEarly, hb, classMro, initMro]
+  cases h : mro bases c with
+  | some l => cases is_ <;> simp [filter_true_eq]
+  | none =>
+    cases is_
+    · simp [classMroEarlyOld, allbases, allbasesFuel, filter_true_eq]
+    · simp [classMroEarlyOld, filter_true_eq]
 
-theorem early_mro_single (bases : Nat → List Nat) (hA : Acyclic bases) (hS : SingleInheritance bases) :
-    ∀ (f g c : Nat), c < f → c < g →
-      mroFuel bases f c = some (allbasesFuel bases (fun _ => false) g c) := by
-  intro f
-  induction f with
-  | zero => intro g c h; omega
-  | succ f ih =>
-    intro g c hf hg
-    cases g with
-    | zero => omega
-    | succ g =>
-      rw [mroFuel_succ]
-      have hl := hS c
-      match hb : bases c, hl with
-      | [], _ => simp [allbasesFuel, hb]
-      | [b], _ =>
-        have hbc : b < c := hA c b (by simp [hb])
-        have hib := ih g b (by omega) (by omega)
-        have hn := mroFuel_nodup bases hA f b _ hib
-        obtain ⟨t, ht, _⟩ := mroFuel_head_tail bases hA f b _ hib
-        simp only [List.isEmpty_cons, Bool.false_eq_true, if_false, mapOpt, hib]
-        have hm : merge [allbasesFuel bases (fun _ => false) g b, [b]]
-            = some (allbasesFuel bases (fun _ => false) g b) := by
-          rw [ht]; exact merge_fast b t (ht ▸ hn)
-        simp [allbasesFuel, hb, hm]
-      | _ :: _ :: _, hl => simp at hl
-
-/-- **early_eq_mro_partial**: under single inheritance (and no unresolved bases) the order used
-during the visit is the final linearisation, so every visit-time lookup agrees with the final one.
-Excluded: multiple inheritance, where they differ as soon as a diamond is involved. -/
-theorem early_eq_mro_partial (bases : Nat → List Nat) (hA : Acyclic bases)
-    (hS : SingleInheritance bases) (c : Nat) :
-    classMroEarly bases (fun _ => false) c = classMro bases (fun _ => false) c := by
-  have h := early_mro_single bases hA hS (c + 1) (c + 1) c (by omega) (by omega)
-  have h' : mro bases c = some (allbases bases (fun _ => false) c) := h
-  have hf : ∀ l : List Nat, l.filter (fun _ => true) = l := fun l => by
-    induction l with
-    | nil => rfl
-    | cons a l ih => simp
-  simp [classMroEarly, classMro_accept bases _ c _ h', hf]
-
-theorem findEarly_eq_find_partial (bases : Nat → List Nat) (hA : Acyclic bases)
-    (hS : SingleInheritance bases) (owns : Nat → Nat → Bool) (c name : Nat) :
+/-- **findEarly_eq_find**: every lookup made through a class during the visit (`expandName` on
+`D.Inner`, aliases, `_maybeAttribute`) finds what `Class.find` finds after post-processing, hence
+(`find_eq_lookup`) what Python's attribute lookup finds. -/
+theorem findEarly_eq_find (bases : Nat → List Nat) (owns : Nat → Nat → Bool) (c name : Nat) :
     findEarly bases (fun _ => false) owns c name = find bases (fun _ => false) owns c name := by
-  simp [findEarly, find, early_eq_mro_partial bases hA hS c]
+  simp only [findEarly, find, early_eq_mro bases c true]
 
-/-- In the diamond 1; 2(1); 3(1); 4(2,3) with the name defined in 1 and 3, the lookup made during
-the visit (depth-first `allbases`: 4,2,1,3,1) finds 1's definition, the final linearisation and
-Python (4,2,3,1) find 3's: `class X(D.Inner)` gets the wrong base. -/
+/-- Historical (code before commit 7c3f474): in the diamond 1; 2(1); 3(1); 4(2,3) with the name
+defined in 1 and 3, the lookup made during the visit followed the depth-first `allbases` order
+(4,2,1,3,1) and found 1's definition where the final linearisation and Python (4,2,3,1) find 3's:
+`class X(D.Inner)` got the wrong base.  The current code finds 3's. -/
 theorem findEarly_diamond_counterexample :
-    findEarly exBases (fun _ => false) (fun c _ => c == 1 || c == 3) 4 0 = some 1
-    ∧ find exBases (fun _ => false) (fun c _ => c == 1 || c == 3) 4 0 = some 3
+    findEarlyOld exBases (fun _ => false) (fun c _ => c == 1 || c == 3) 4 0 = some 1
+    ∧ findEarly exBases (fun _ => false) (fun c _ => c == 1 || c == 3) 4 0 = some 3
     ∧ PyMro.lookup (PyMro.withObject exBases) (fun c _ => c == 1 || c == 3) 4 0 = some 3 := by
   decide
 
